@@ -184,6 +184,17 @@ impl<'tcx> Ex<'tcx> {
                 v.push(("d", s(self.dp(at.kind.def_id()))));
                 let a = self.gargs(at.args);
                 v.push(("a", a));
+                if let ty::AliasTyKind::Opaque { def_id } = at.kind {
+                    v.push(("opaque", J::B(true)));
+                    let tcx = self.tcx;
+                    let r = std::panic::catch_unwind(std::panic::AssertUnwindSafe(|| {
+                        tcx.type_of(def_id).instantiate(tcx, at.args).skip_norm_wip()
+                    }));
+                    if let Ok(h) = r {
+                        let hid = self.ty(h);
+                        v.push(("hidden", hid));
+                    }
+                }
             }
             ty::Never => v.push(("k", s("never"))),
             ty::Bool | ty::Char | ty::Int(_) | ty::Uint(_) | ty::Float(_) | ty::Str => v.push(("k", s("prim"))),
